@@ -505,4 +505,5 @@ def run(ctx):
     _fam.reader(ctx, "C20")
     _fam.mapping_list(ctx, "C20")
     _fam.thread_list(ctx, "C20")
+    _fam.stack_lookup(ctx, "C20")
 
